@@ -23,6 +23,7 @@ type View struct {
 	CL                 int
 	ConnClose          bool
 	Host               string
+	Raw                []byte // RawHeaders(): the header block as the server kept it
 }
 
 // Observer records handler views; safe for concurrent handlers.
@@ -58,6 +59,7 @@ func (o *Observer) Handle(c context.Context, ctx *app.RequestContext) {
 	v.CL = ctx.Request.Header.ContentLength()
 	v.ConnClose = ctx.Request.Header.ConnectionClose()
 	v.Host = string(ctx.Request.Host())
+	v.Raw = append([]byte(nil), ctx.Request.Header.RawHeaders()...)
 	ctx.Request.Header.VisitAll(func(k, val []byte) {
 		v.Hdrs[string(k)] = append(v.Hdrs[string(k)], string(val))
 	})
@@ -136,8 +138,8 @@ func (v *View) String() string {
 		ts = append(ts, k+"="+strings.Join(vs, "|"))
 	}
 	sort.Strings(ts)
-	return fmt.Sprintf("%s %s %s host=%s cl=%d close=%v H[%s] T[%s] B[%d:%08x] E[%s]", v.Method, v.URI, v.Proto, v.Host, v.CL, v.ConnClose,
-		strings.Join(ks, ","), strings.Join(ts, ","), len(v.Body), hash(v.Body), errClass(v.BodyErr))
+	return fmt.Sprintf("%s %s %s host=%s cl=%d close=%v H[%s] T[%s] B[%d:%08x] E[%s] raw[%d:%08x]", v.Method, v.URI, v.Proto, v.Host, v.CL, v.ConnClose,
+		strings.Join(ks, ","), strings.Join(ts, ","), len(v.Body), hash(v.Body), errClass(v.BodyErr), len(v.Raw), hash(v.Raw))
 }
 
 // Dedicated names are surfaced through dedicated getters and excluded from the
